@@ -35,7 +35,7 @@ def run(ctx):
     if ctx.tier == "thorough":
         ctx.leanchecker("Slock.Properties.C14")
     n = 150 if ctx.tier == "quick" else 5000
-    for pkg in ("protocol",):
+    for pkg in ("protocol", "server"):
         exe = ctx.build_harness(pkg)
         if not exe:
             continue
